@@ -106,12 +106,11 @@ func (op Cil) Disassembler(arch *Arch, instr string) (string, error) {
 func (op Cil) Simulate(vm *VM, instr string) error {
 	reg_bits := vm.Mach.R
 	regdest := get_id(instr[:reg_bits])
-	regsrc := get_id(instr[reg_bits : reg_bits*2])
 	switch vm.Mach.Rsize {
 	case 8:
-		vm.Registers[regdest] = vm.Registers[regsrc].(uint8) << 1
+		vm.Registers[regdest] = vm.Registers[regdest].(uint8) << 1
 	case 16:
-		vm.Registers[regdest] = vm.Registers[regsrc].(uint16) << 1
+		vm.Registers[regdest] = vm.Registers[regdest].(uint16) << 1
 	default:
 		// TODO Fix
 	}
